@@ -36,13 +36,13 @@ type c10variant struct {
 	mkJust     func(s c10suite, sid []byte, idx uint32, deal any, dealerLong kyber.Scalar) any
 	cloneJust  func(s c10suite, j any) any
 	// deals
-	cloneDeal  func(s c10suite, d any) any
-	dealShare  func(d any) *share.PriShare
-	dealSetT   func(d any, t uint32)
-	dealCommit func(d any) []kyber.Point
-	dealSid    func(d any) []byte
-	dealBytes  func(d any) []byte
-	recover    func(s c10suite, deals []any, n, t uint32) (kyber.Scalar, error)
+	cloneDeal             func(s c10suite, d any) any
+	dealShare             func(d any) *share.PriShare
+	dealSetT              func(d any, t uint32)
+	dealCommit            func(d any) []kyber.Point
+	dealSid               func(d any) []byte
+	dealBytes             func(d any) []byte
+	recover               func(s c10suite, deals []any, n, t uint32) (kyber.Scalar, error)
 	timeoutAddsComplaints bool // Rabin: SetTimeout turns absent verifiers into complaints
 }
 
@@ -368,7 +368,7 @@ type c10scn struct {
 	behav   []string
 	justs   map[int]string
 	prelude map[int]string // per verifier: a deal the code refuses with an error, delivered before the verifier's deal proper
-	tpos    int // position of the timeout in the event list (-1: none)
+	tpos    int            // position of the timeout in the event list (-1: none)
 	seedIdx int
 }
 
@@ -551,8 +551,8 @@ func c10run(r *mon.R, s *c10scn, scnIdx int) {
 	nontriv := false
 	// ---------------- phase 1: deals
 	commitClass := make([]string, n) // by construction: which commitments the deal handed to verifier i carries
-	goodDeal := make([]bool, n)   // by construction: verifier i received the dealer's own untouched deal
-	codeResp := make([]any, n)    // response produced by the code
+	goodDeal := make([]bool, n)      // by construction: verifier i received the dealer's own untouched deal
+	codeResp := make([]any, n)       // response produced by the code
 	codeApproved := make([]bool, n)
 	for i := 0; i < n; i++ {
 		f := s.faults[i]
@@ -643,7 +643,11 @@ func c10run(r *mon.R, s *c10scn, scnIdx int) {
 		case "bad-share":
 			mutated(func(d any) { sh := v.dealShare(d); sh.V = suite.Scalar().Add(sh.V, suite.Scalar().One()) })
 		case "bad-commit":
-			mutated(func(d any) { c := v.dealCommit(d); k := rng.IntN(len(c)); c[k] = suite.Point().Add(c[k], suite.Point().Base()) })
+			mutated(func(d any) {
+				c := v.dealCommit(d)
+				k := rng.IntN(len(c))
+				c[k] = suite.Point().Add(c[k], suite.Point().Base())
+			})
 		case "wrong-index":
 			// a perfectly valid deal of another verifier
 			j := (i + 1 + rng.IntN(n-1)) % n
